@@ -21,6 +21,7 @@ import NV.Common.Proto
 import NV.C04.Model
 import NV.C04.Sizes
 import NV.C04.MapBook
+import NV.C04.Save
 import NV.C04.Spec
 
 namespace NV.C04
@@ -198,6 +199,34 @@ def szCmd (l : Limits) (ctor : String) (a : List Int) : Option SzR :=
   | "keys", [n] => some (andThen (mapInsertMany 0 n.toNat l.maxMapping) fun c => mapKeys c l.maxArray)
   | "values", [n] => some (andThen (mapInsertMany 0 n.toNat l.maxMapping) fun c => mapKeys c l.maxArray)
   | "allocate_mapping", [n] => some (allocateMapping n)
+  -- round 4 (mirrors harness/mudlib/c04/sizes.c)
+  | "map_compose", [c1, c2, common] | "map_compose_eq", [c1, c2, common] =>
+    -- a = ([ i : i ]) for i < c1; b has the keys c1-common .. c1-common+c2-1: the nodes of a with a value in that range stay
+    some (andThen (mapInsertMany 0 c1.toNat l.maxMapping) fun x => andThen (mapInsertMany 0 c2.toNat l.maxMapping) fun y =>
+      let lo : Int := max 0 ((x : Int) - common)
+      let hi : Int := min (x : Int) ((x : Int) - common + y)
+      composeMapping x (hi - lo).toNat)
+  | "save_array", [n] => some (andThen (allocateArray n l.maxArray) fun a => saveVariable (valZeros a) l.maxString)
+  | "save_string", [n, esc] => some (andThen (str n) fun p => saveVariable (valString p (if esc != 0 then p else 0)) l.maxString)
+  | "save_mapping", [n] =>
+    some (andThen (mapInsertMany 0 (min n.toNat 10) l.maxMapping) fun c => saveVariable (valSmallMap c) l.maxString)
+  | "save_nested", [d] => some (saveVariable (valNested (d.toNat - 1)) l.maxString)
+  | "copy_nested", [d] => some (if deepCopyOk 0 (valNested (d.toNat - 1)) then .ok (max d.toNat 1) else .err)
+  | "restore_nested", [d] =>
+    -- the text "({" * (d-1) + "({})" + ",})" * (d-1) is built first; restore has no nesting limit of its own
+    some (andThen (repeatString 2 (d - 1) l.maxString) fun a => andThen (stringJoin a 4 l.maxString) fun b =>
+      andThen (repeatString 3 (d - 1) l.maxString) fun c => andThen (stringJoin b c l.maxString) fun _ => .ok (max d.toNat 1))
+  | "restore_array", [n] =>
+    some (andThen (repeatString 2 n l.maxString) fun a => andThen (stringJoin 2 a l.maxString) fun b =>
+      andThen (stringJoin b 2 l.maxString) fun _ => restoreArray n.toNat l.maxArray)
+  | "restore_mapping", [n] =>
+    -- s = "(["; s += i + ":1," for every i; s + "])"
+    some (andThen ((List.range n.toNat).foldl (fun acc (i : Nat) => andThen acc fun len =>
+              andThen (stringJoin (decLen (i : Int)) 3 l.maxString) fun piece => stringJoin len piece l.maxString) (.ok 2)) fun len =>
+            andThen (stringJoin len 2 l.maxString) fun _ => restoreMapping n.toNat l.maxMapping)
+  | "regexp", [n, matched, flag] =>
+    some (andThen (allocateArray n l.maxArray) fun a => matchRegexp (min matched.toNat a) flag l.maxArray)
+  | "reg_assoc", [m] => some (andThen (str m) fun p => regAssoc p l.maxArray)
   | "sprintf_pad", [w, n] =>
     -- sprintf ("%*s", w, s): padded to the field width; the pad goes through the same bounded buffer
     some (andThen (str n) fun p =>
@@ -215,6 +244,12 @@ def parseMapOp (t : String) : Option MapOp :=
   else if t.startsWith "a" then
     match (t.drop 1).toString.splitOn ":" with
     | [_, _, k] => k.toNat?.map MapOp.absorb
+    | _ => none
+  else if t.startsWith "c" then
+    -- c<lo>:<n>:<kept>   m *= ([ lo .. lo+n-1 ])        cs:<kept>   m *= m (every value is a key)
+    match (t.drop 1).toString.splitOn ":" with
+    | [_, _, k] => k.toNat?.map MapOp.compose
+    | ["s", k] => k.toNat?.map MapOp.compose
     | _ => none
   else none
 
